@@ -11,6 +11,10 @@ FP_RANGE = (-4096, 4096)
 
 
 def jobs(tier):
+    return [dict(j, second_solver=(20 if tier == "thorough" else 0)) for j in _jobs(tier)]
+
+
+def _jobs(tier):
     return [dict(name="init", fn="init_start", args=[], collect_models=4, fp_range=FP_RANGE, expect=["INIT from_init_values reproduces the value"]),
             dict(name="ping", fn="ping_start", args=[], collect_models=4, fp_range=FP_RANGE, expect=["PING from_ping_values reproduces the value"]),
             dict(name="account_reply", fn="account_reply_start", args=[], collect_models=3, fp_range=FP_RANGE),
